@@ -175,7 +175,7 @@ pub fn c16_roundtrip_any_duration() {
 
 /// at chrono's limits the operation is an error, never a panic: t an extreme instant, d any
 /// whole-second chrono duration
-fn overflow_is_error(ts: Ts) {
+pub fn overflow_is_error(ts: Ts) {
     let secs: i64 = any();
     let d = Duration::new(secs, 0);
     sym::assume(d.is_some());
